@@ -1,7 +1,86 @@
-(* C13 -- the property theorems and nothing else (each closed by `exact <lemma>`). *)
-From Coq Require Import List NArith Bool Arith.
-From Kenlm Require Import C13.InterpSpec C13.InterpModel C13.MergeVocabModel.
+(* C13 -- the property theorems and nothing else.  Each is closed by `exact <lemma>`; vlib runs
+   Print Assumptions on every one of them on every check run.
+   K is any commutative ring with Leibniz equality (scores: log-probabilities, back-offs, weights). *)
+From Coq Require Import List NArith ZArith Bool Arith Ring_theory Sorted Reals.
+From Kenlm Require Import C13.InterpSpec C13.InterpModel C13.MergeVocabModel C13.InterpProofs C13.MergeVocabProofs C13.InterpReals.
 Import ListNotations.
 
-Theorem C13_placeholder_bootstrap : merge_vocab [] = Some ([], []).
-Proof. reflexivity. Qed.
+(* For ANY function logZ, the emitted (probability, back-off) table, evaluated by the ARPA back-off recursion,
+   equals  sum_i lambda_i log p_i(x|c) - log Z(c)  for every context c and word x, listed or not -- provided
+   <unk> is listed and log Z of a context that is no listed n-gram is that of the shortened context (true of
+   the real normaliser: such a context has no listed continuation in any component). *)
+Theorem C13_arpa_represents_formula :
+  forall (K : Type) (k0 k1 : K) (kadd kmul ksub : K -> K -> K) (kopp : K -> K),
+  ring_theory k0 k1 kadd kmul ksub kopp (@eq K) ->
+  forall (comps : list (K * table K)) (logZ : ngram -> K),
+  inU K comps [UNK] = true ->
+  (forall c, c <> [] -> inU K comps c = false -> logZ c = logZ (tl c)) ->
+  forall c x, score K k0 kadd (emitted K k0 kadd kmul ksub comps logZ) c x = formula K k0 kadd kmul ksub comps logZ c x.
+Proof. exact arpa_represents_formula. Qed.
+
+(* If e is exponential-like (e(a+b) = e a * e b, e 0 = 1) into a commutative ring F and e(log Z(c)) is the sum
+   over the vocabulary V of e(sum_i lambda_i log p_i(x|c)), the interpolated distribution of c sums to one. *)
+Theorem C13_normalised :
+  forall (K : Type) (k0 k1 : K) (kadd kmul ksub : K -> K -> K) (kopp : K -> K),
+  ring_theory k0 k1 kadd kmul ksub kopp (@eq K) ->
+  forall (F : Type) (f0 f1 : F) (fadd fmul fsub : F -> F -> F) (fopp : F -> F),
+  ring_theory f0 f1 fadd fmul fsub fopp (@eq F) ->
+  forall e : K -> F, (forall a b, e (kadd a b) = fmul (e a) (e b)) -> e k0 = f1 ->
+  forall (comps : list (K * table K)) (logZ : ngram -> K) (V : list wid) (c : ngram),
+  e (logZ c) = fsum F f0 fadd (map (fun x => e (wsum K k0 kadd kmul comps (fun T => score K k0 kadd T c x))) V) ->
+  fsum F f0 fadd (map (fun x => e (formula K k0 kadd kmul ksub comps logZ c x)) V) = f1.
+Proof. exact normalised. Qed.
+
+(* the same over the real numbers with e = 10^x (this one depends on the axioms of the standard library's reals) *)
+Theorem C13_normalised_reals :
+  forall (comps : list (R * table R)) (logZ : ngram -> R) (V : list wid) (c : ngram),
+  pow10 (logZ c) = rsum (map (fun x => pow10 (wsum R 0%R Rplus Rmult comps (fun T => score R 0%R Rplus T c x))) V) ->
+  rsum (map (fun x => pow10 (formula R 0%R Rplus Rmult Rminus comps logZ c x)) V) = 1%R.
+Proof. exact normalised_reals. Qed.
+
+(* One model, weight one, normaliser one everywhere (the input is normalised): the input table is reproduced. *)
+Theorem C13_single_model_identity :
+  forall (K : Type) (k0 k1 : K) (kadd kmul ksub : K -> K -> K) (kopp : K -> K),
+  ring_theory k0 k1 kadd kmul ksub kopp (@eq K) ->
+  forall (T : table K) (logZ : ngram -> K), T [] = None -> (forall c, logZ c = k0) ->
+  forall g, emitted K k0 kadd kmul ksub [(k1, T)] logZ g = T g.
+Proof. exact single_model_identity. Qed.
+
+(* The tool's two passes (probability of the longest listed suffix, then the back-offs of the longer contexts)
+   compute the full back-off score the formula is stated with. *)
+Theorem C13_two_pass_is_backoff_score :
+  forall (K : Type) (k0 k1 : K) (kadd kmul ksub : K -> K -> K) (kopp : K -> K),
+  ring_theory k0 k1 kadd kmul ksub kopp (@eq K) ->
+  forall (T : table K) c x, score2 K k0 kadd T (c ++ [x]) = score K k0 kadd T c x.
+Proof. exact two_pass_is_backoff_score. Qed.
+
+(* MergeVocab: the universal vocabulary is the sorted union without duplicates and every model word is mapped
+   to the universal index that holds the same hash; the loop never runs out of fuel. *)
+Theorem C13_merge_vocab : forall files, good_files files ->
+  exists glob maps, merge_vocab files = Some (glob, maps) /\
+    StronglySorted N.lt glob /\
+    (forall h, In h glob <-> exists l, In l files /\ In h l) /\
+    Forall2 (fun l mp => Forall2 (fun h gi => 1 <= gi /\ nth_error glob (gi - 1) = Some h) l mp) files maps.
+Proof. exact merge_vocab_correct. Qed.
+
+(* ... hence each id map is strictly increasing: injective and order preserving *)
+Theorem C13_merge_vocab_maps_increasing : forall glob l mp,
+  StronglySorted N.lt glob -> StronglySorted N.lt l ->
+  Forall2 (fun h gi => 1 <= gi /\ nth_error glob (gi - 1) = Some h) l mp -> StronglySorted lt mp.
+Proof. exact map_strictly_increasing. Qed.
+
+(* F10: with the exclusion rule as shipped (every model's own highest order is withheld from the back-off pass)
+   two context-closed components of orders 3 and 2 give probability and back-off streams of different length:
+   ReunifyBackoff aborts.  With the repaired rule the streams agree. *)
+Theorem C13_mixed_order_refuted :
+  context_closed Z [f10_A; f10_B] /\
+  reunify_ok_Z false [f10_A; f10_B] = false /\ reunify_ok_Z true [f10_A; f10_B] = true.
+Proof. exact mixed_order_refuted. Qed.
+
+(* Repaired pipeline: for every tuple of context-closed components (any orders) each n-gram below the top
+   order has exactly one back-off record, so pass 3 terminates successfully. *)
+Theorem C13_mixed_order_fixed : forall (K : Type) (cs : list (comp K)),
+  context_closed K cs ->
+  reunify_ok K true cs = true /\
+  forall k g, 1 <= k < max_order K cs -> (In g (backoff_keys K true cs k) <-> In g (prob_keys K cs k)).
+Proof. exact mixed_order_fixed. Qed.
